@@ -24,6 +24,7 @@ inline Out ref_apply(RModel& m, const VOp& op, Info& inf) {
     auto ensureAdopt = [&]() { inf.adoptRange.assign(m.v.size() + 1, 0); inf.adoptCur.assign(m.v.size() + 1, 0); };
     ensureAdopt();
     m.iterFix = 0;
+    m.adoptHint.clear();
     switch (op.c) {
     // ------------------------------------------------------------ view creation
     case K_MK_NI: case K_MK_TW: {
@@ -236,6 +237,9 @@ inline Out ref_apply(RModel& m, const VOp& op, Info& inf) {
         if (!viewIs(m, op.a, V_RANGE)) return skip();
         RView& w = m.v[op.a];
         if (w.detached) return exc(1, 11);
+        // DOM Range 2.2: the root container of a Range is a Document, DocumentFragment or Attr; for a Range that was placed
+        // (setStart/selectNode) inside a parentless element subtree the content operations are not determined -> not executed
+        if (op.c != K_R_CLONE && !m.rangeRootIsDocOrFragment(w)) return skip();
         inf.contentNonEmpty = !(w.sc == w.ec && w.so == w.eo);
         int mode = op.c == K_R_DELETE ? RModel::M_DELETE : op.c == K_R_EXTRACT ? RModel::M_EXTRACT : RModel::M_CLONE;
         int f = m.rangeContents(m.v[op.a], mode);
@@ -257,6 +261,7 @@ inline Out ref_apply(RModel& m, const VOp& op, Info& inf) {
         if (t == T_DOC) return skip();  // header: INVALID_NODE_TYPE_ERR, but a Document is also "not created from the same document": order of the two checks not determined
         if (t == T_FRAG) return exc(2, 112);
         if (m.partiallySelectsNonText(m.v[op.a])) return exc(2, 111);
+        if (!m.rangeRootIsDocOrFragment(m.v[op.a])) return skip();
         if (t != T_ELEM) return skip();  // a Text node cannot take children: HIERARCHY_REQUEST_ERR after a partial mutation - not determined
         RModel tmp = m;
         RView& w = tmp.v[op.a];
@@ -293,6 +298,7 @@ inline Out ref_apply(RModel& m, const VOp& op, Info& inf) {
     default: return skip();
     }
     inf.iterFix = m.iterFix;
+    for (int vi : m.adoptHint) if (vi >= 0 && vi < (int)inf.adoptRange.size()) inf.adoptRange[vi] = 1;
     if (inf.adoptRange.size() < m.v.size()) { inf.adoptRange.resize(m.v.size(), 0); inf.adoptCur.resize(m.v.size(), 0); }
     return out;
 }
